@@ -85,9 +85,10 @@ def main(argv):
             traceback.print_exc()
             return 2
     tier = argv[1]
+    if tier == "auto":   # tier taken from the environment, default quick
+        tier = os.environ.get("VERIF_TIER", "quick")
     if tier not in ("quick", "thorough"):
-        die("tier must be quick or thorough")
-    tier = os.environ.get("VERIF_TIER", tier) if os.environ.get("VERIF_TIER") in ("quick", "thorough") else tier
+        die("tier must be quick, thorough or auto")
     try:
         seed = int(os.environ.get("VERIF_SEED", "1"))
     except ValueError:
